@@ -15,6 +15,7 @@ import HmfVerif.Gen.ExprGrowth
 import HmfVerif.Spec.Wdm
 import HmfVerif.Spec.Mdef
 import HmfVerif.Spec.Transfer
+import HmfVerif.Gen.ExprHalofit
 /-! Driver: one request per line on stdin, one canonical answer per line on stdout. -/
 
 def exprTables : List (String × List (String × Hmf.E)) :=
@@ -22,7 +23,7 @@ def exprTables : List (String × List (String × Hmf.E)) :=
    ("Wdm", Hmf.Gen.Wdm.table), ("WdmAlter", Hmf.Gen.WdmAlter.table), ("Flow", Hmf.Gen.Flow.table), ("Mdef", Hmf.Gen.Mdef.table),
    ("Transfer", Hmf.Gen.Transfer.table), ("Filters", Hmf.Gen.Filters.table), ("Growth", Hmf.Gen.Growth.table),
    ("SpecWdm", Hmf.Spec.Wdm.table), ("SpecMdef", Hmf.Spec.Mdef.table),
-   ("SpecTransfer", Hmf.Spec.Transfer.table)]
+   ("SpecTransfer", Hmf.Spec.Transfer.table), ("Halofit", Hmf.Gen.Halofit.table)]
 
 def lookupTerm (name : String) : Option Hmf.E :=
   match name.splitOn "/" with
